@@ -26,7 +26,7 @@ PLAN = {
     "thorough": {"shards": 16, "shard_timeout": 3600, "case_timeout": 240, "configs": 1200, "envs": 6, "max_case_timeouts": 20},
 }
 THRESHOLDS = {
-    "quick": {"configurations_compared": 35, "child_runs": 140, "set:environments": 6, "repr:tree": 4, "repr:ge": 4, "repr:sge": 4, "repr:dsge": 4, "repr:stack": 4, "alg:gp": 5, "alg:rs": 3, "alg:hc": 3, "alg:opo": 3, "gp_crossover_heavy:dsge": 5, "tracker:bare": 5, "tracker:with-recorder": 5, "focus:tree": 3, "focus:ge": 3, "focus:sge": 3, "focus:dsge": 3, "focus:stack": 3, "ring_recursion_configurations": 5, "same_named_classes_configurations": 3, "child_runs_after_an_earlier_problem": 60, "evaluations_traced": 2000, "distinct_programs_traced": 300},
+    "quick": {"configurations_compared": 35, "child_runs": 140, "set:environments": 6, "repr:tree": 4, "repr:ge": 4, "repr:sge": 4, "repr:dsge": 4, "repr:stack": 4, "alg:gp": 5, "alg:rs": 3, "alg:hc": 3, "alg:opo": 3, "gp_crossover_heavy:dsge": 5, "tracker:bare": 5, "tracker:with-recorder": 5, "focus:tree": 3, "focus:ge": 3, "focus:sge": 3, "focus:dsge": 9, "focus:stack": 3, "ring_recursion_configurations": 5, "same_named_classes_configurations": 3, "child_runs_after_an_earlier_problem": 60, "evaluations_traced": 2000, "distinct_programs_traced": 300},
     "thorough": {"configurations_compared": 380, "child_runs": 2200, "set:environments": 30},
 }
 REPRS = ["tree", "ge", "sge", "dsge", "stack"]
@@ -58,9 +58,12 @@ def focus_cases(rng, descs, per_repr):
     or addresses of type objects only matter once crossover / mutation meet several symbols, and flipping a two- or
     three-element order takes several differently laid-out processes."""
     k = 0
+    rich = [d for d in descs if len(d["prods"]) >= 7] or descs
     for r in REPRS:
-        for _ in range(per_repr):
-            desc = descs[k % len(descs)]
+        # dSGE genotypes are dictionaries keyed by symbols that fill up lazily: the more kinds of symbols, the more often
+        # two parents differ in their key sets - three times as many configurations, on the richer grammars
+        for _ in range(per_repr * (3 if r == "dsge" else 1)):
+            desc = (rich if r == "dsge" else descs)[k % len(rich if r == "dsge" else descs)]
             k += 1
             yield {"desc": desc, "repr": r, "decider": rng.choice(["maxdepth", "pigrow"]), "alg": "gp", "seed": rng.randrange(10**6), "budget": rng.choice([50, 70]), "pop": rng.choice([6, 8]), "extra_depth": rng.choice([3, 4]), "step": "cx", "tracker": "default", "envs": _envs(rng, 6), "focus": True}
     # deciders that consult the grammar ANALYSIS (recursive set, distances), on recursion that runs through several
